@@ -5,9 +5,13 @@ Only property theorems and non-vacuity examples live here; helper lemmas are in 
 import SfntV.Proofs.CffIndex
 import SfntV.Proofs.CffDict
 import SfntV.Proofs.CffReal
+import SfntV.Proofs.CffRealClamp
 import SfntV.Proofs.CffCharset
 import SfntV.Proofs.CffFdselect
 import SfntV.Proofs.CffWidths
+import SfntV.Proofs.CffStrings
+import SfntV.Model.CffEncoding
+import SfntV.Proofs.CffWrite
 import SfntV.Generated.Cff
 
 namespace SfntV.Props.C13
@@ -125,16 +129,15 @@ theorem C13_dictreal_roundtrip_partial (neg : Bool) (i : Nat) (hi : 0 < i) (l : 
       | .panic s => .panic s :=
   decodeReal_encodeReal neg i hi l rest
 
-/-- The full statement: for nine-digit `i` and `|l| ≤ 290` (so that neither the float64 range
-nor the ±1e300 / 1e-300 clamps of `decodeFloat` interfere) the decoded operand is the written
-decimal in normal form.  Missing for it: `clampValue (neg, i'·10^k, l−m−k) = ok (neg, i', l−m)`
-in that range (arithmetic on `numDigits`/`stripZeros` and the bounds 2^1024, 10^±300); it is
-evaluated by the correspondence streams `cff.real.dec` and `cff.dict.specdec` only. -/
-def C13_dictreal_roundtrip_full : Prop :=
-  ∀ (neg : Bool) (i : Nat) (l : Int) (rest : Bytes), 100000000 ≤ i → i < 1000000000 →
-    -290 ≤ l → l ≤ 290 →
+/-- Reals survive: for every mantissa `i` of at most nine digits and every decimal-point
+position `l` within ±280 (far beyond the ±1e300 / 1e-300 clamps nothing is claimed),
+`decodeFloat (encodeFloat …)` is the written decimal `± 0.i · 10^l` in normal form (mantissa
+without trailing zeros), and exactly the written bytes are consumed. -/
+theorem C13_dictreal_roundtrip (neg : Bool) (i : Nat) (l : Int) (rest : Bytes)
+    (hi : 0 < i) (hi9 : i < 10 ^ 9) (hl : -280 ≤ l ∧ l ≤ 280) :
     decodeReal (encodeReal neg i l ++ rest)
-      = .ok (.real neg (stripZeros 20 i) (l - (numDigits (stripZeros 20 i) : Int)), rest)
+      = .ok (.real neg (stripZeros 20 i) (l - (numDigits (stripZeros 20 i) : Int)), rest) :=
+  decodeReal_encodeReal_full neg i l rest hi hi9 hl
 
 -- 1230, 0.00123, -1.5e20 written and read back
 example : encodeReal false 123000000 4 = [0x12, 0x30, 0xff] := by decide
@@ -174,6 +177,47 @@ theorem C13_fdselect_roundtrip (fds : List Int) (np : Nat) (hne : fds ≠ []) (h
 example : fdEncode [0, 1, 0] = [0, 0, 1, 0] := by decide
 example : fdEncode [0, 0, 0, 0, 0, 0, 0, 0, 1, 1, 1, 1] = [3, 0, 2, 0, 0, 0, 0, 8, 1, 0, 12] := by decide
 
+/-! ## strings -/
+
+/-- SID ↔ string: the SID that `cffStrings.lookup` returns for a string (standard string, custom
+string already present, or newly allocated) reads back through `cffStrings.get` as that string,
+and the custom strings allocated earlier keep their SIDs (the table only grows at the end).
+Holds for whatever the standard table contains (duplicates are harmless), so nothing about the
+391 regenerated strings has to be decided. -/
+theorem C13_strings_roundtrip (std custom : List String) (s : String) :
+    stringsGet std.toArray (stringsLookup std custom s).2.toArray (stringsLookup std custom s).1 = some s ∧
+      ∃ ext, (stringsLookup std custom s).2 = custom ++ ext :=
+  stringsGet_lookup std custom s
+
+example : stringsLookup ["a", "b"] ["x"] "b" = (1, ["x"]) ∧ stringsLookup ["a", "b"] ["x"] "x" = (2, ["x"]) ∧
+    stringsLookup ["a", "b"] ["x"] "y" = (3, ["x", "y"]) := by decide
+
+/-! ## encoding -/
+
+/-- The documented contiguity rule of `encodeEncoding`: the encoded glyphs are exactly
+`1 … k` for some `k`, every entry is a glyph of the font, the vector has 256 entries. -/
+def EncodingDom (enc : List Nat) (nGlyphs : Nat) : Prop :=
+  enc.length = 256 ∧ (∀ g ∈ enc, g < nGlyphs) ∧
+    ∀ g ∈ enc, ∀ g', 0 < g' → g' < g → g' ∈ enc
+
+/-- Full statement (not proved; evaluated by the streams `cff.encoding.enc/read/spec` and by the
+whole-font streams): an encoding vector satisfying the contiguity rule, for a font whose glyph
+names (SIDs, 16-bit) are pairwise distinct, is written without error and read back unchanged —
+formats 0 and 1, with supplements for multiply-encoded glyphs. -/
+def C13_encoding_roundtrip_full : Prop :=
+  ∀ (enc : List Nat) (names : List Int) (rest : Bytes),
+    EncodingDom enc names.length → names.length < 65536 →
+    (∀ x ∈ names, 0 ≤ x ∧ x ≤ 65535) → names.Nodup →
+    ∃ bs, encodeEncoding enc names = .ok bs ∧ readEncoding (bs ++ rest) 0 names = .ok enc
+
+-- a multiply-encoded glyph: codes 65 and 97 both select glyph 1 (SID 34)
+set_option maxRecDepth 100000 in
+example : encodeEncoding ((List.replicate 65 0 ++ [1, 2] ++ List.replicate 30 0 ++ [1] ++ List.replicate 158 0)) [0, 34, 35]
+    = .ok [0x80, 2, 65, 66, 1, 97, 0, 34] := by decide
+set_option maxRecDepth 100000 in
+example : readEncoding [0x80, 2, 65, 66, 1, 97, 0, 34] 0 [0, 34, 35]
+    = .ok (List.replicate 65 0 ++ [1, 2] ++ List.replicate 30 0 ++ [1] ++ List.replicate 158 0) := by decide
+
 /-! ## default and nominal width (defect #19, repaired in cff/write.go) -/
 
 /-- Whatever the glyph widths are (integral or fractional 16.16 values), the default and the
@@ -196,6 +240,73 @@ theorem C13_width_stored_exactly (w : Int) (h : fxIntegral w = true)
 
 -- 500.5, 500.5, 600 (the input of defect #19): default 600 (the only integral width), nominal 608
 example : selectWidths [32800768, 32800768, 39321600] = (39321600, some 39845888) := by decide
+
+/-! ## the offset fixed-point loop of `(*Font).Write` -/
+
+/-- When the loop of `Write` exits, the file is the concatenation of the sections
+`mkBlobs … offs` computed from one vector of offsets `offs`, and for every section `i` the
+value `offs[i]` is exactly the byte position of that section in the file.  `mkBlobs` writes
+`offs[charsets]`, `offs[encodings]`, `offs[charStrings]`, `offs[FDSelect]`, `offs[fontDictIndex]`
+into the Top DICT operators charset / Encoding / CharStrings / FDSelect / FDArray, the pair
+(length of private DICT `i`, `offs[private i]`) into the Private operator of the Top DICT (simple
+font) or of Font DICT `i` (CID-keyed font), and `offs[subrs] − offs[private i]` into the Subrs
+operator of private DICT `i`: so every offset stored in a DICT equals the position of its
+target in the emitted bytes.  (The model `writeFont` is byte-identical to the real `Write` on
+every generated font: verdict stream `cff.file.model`.) -/
+theorem C13_layout_consistent (std : List String) (f : FontIn) (file : Bytes) (passes : Nat)
+    (h : writeFont std f = .ok (file, passes)) :
+    ∃ fx sc offs, prepare std f = .ok (fx, sc) ∧
+      file = (mkBlobs std f.ros.isSome fx sc offs).flatten ∧
+      ∀ i, i < sc.num → i ≤ (mkBlobs std f.ros.isSome fx sc offs).length →
+        offs.getD i 0 = ((((mkBlobs std f.ros.isSome fx sc offs).take i).flatten.length : Nat) : Int) := by
+  unfold writeFont at h
+  cases hp : prepare std f with
+  | err x => rw [hp] at h; cases h
+  | panic s => rw [hp] at h; cases h
+  | ok v =>
+    obtain ⟨fx, sc⟩ := v
+    rw [hp] at h
+    simp only at h
+    cases hl : writeLoop (mkBlobs std f.ros.isSome fx sc) sc.num 64 (cumsum (initialBlobs fx)) 0 with
+    | none => rw [hl] at h; cases h
+    | some r =>
+      obtain ⟨blobs, offs, k⟩ := r
+      rw [hl] at h
+      simp only at h
+      injection h with h
+      injection h with h1 h2
+      obtain ⟨hb, hs⟩ := writeLoop_exit _ _ _ _ _ _ _ _ hl
+      refine ⟨fx, sc, offs, rfl, by rw [← h1, hb], ?_⟩
+      intro i hi hlen
+      have hs' : (cumsum blobs).take sc.num = offs.take sc.num := by
+        simpa [sameOffs] using hs
+      rw [← getD_of_take_eq _ _ _ _ hs' hi, ← hb]
+      exact cumsum_getD blobs i (by rw [hb]; exact hlen)
+
+/-- a two-glyph simple font (names .notdef and A, empty charstrings, default width 500) -/
+def tinyFont : FontIn where
+  fontName := [65]
+  strs := ["", "", "", "", "", ""]
+  isFixedPitch := false
+  ulPos := Operand.int (-100)
+  ulThick := Operand.int 50
+  ulPosDefault := true
+  ulThickDefault := true
+  ros := none
+  names := [".notdef", "A"]
+  cids := []
+  enc := EncChoice.standard
+  fds := [0, 0]
+  privs := [{ blueValues := [], otherBlues := [], blueShift := 7, blueFuzz := 1, forceBold := false }]
+  charStrings := [[14], [14]]
+  defWidth := 500
+  nomWidth := 0
+
+-- the loop needs two passes for it; the Private operator (18) carries size 5 and offset 41,
+-- charset (15) offset 30, CharStrings (17) offset 33
+example : writeFont [".notdef"] tinyFont =
+    .ok ([1, 0, 4, 1, 0, 1, 1, 1, 2, 65, 0, 1, 1, 1, 8, 169, 15, 172, 17, 144, 180, 18, 0, 1, 1, 1, 2, 65, 0, 0,
+          0, 0, 1, 0, 2, 1, 1, 2, 3, 14, 14, 144, 19, 248, 136, 20, 0, 0], 2) := by decide +kernel
 
 /-! ## regenerated facts the models depend on -/
 
